@@ -224,12 +224,13 @@ class Engine:
         if ent[0] == 'from':
             mod, nm = ent[1], ent[2]
             if mod.split('.')[0] == 'rsatoolbox':
-                sub = self.module(mod + '.' + nm)
-                if sub is not None:
-                    return ModV(mod + '.' + nm)
+                # python semantics: an attribute of the package (e.g. a re-exported function) shadows a submodule
                 r = self.resolve_global(mod, nm, depth + 1)
                 if r is not None:
                     return r
+                sub = self.module(mod + '.' + nm)
+                if sub is not None:
+                    return ModV(mod + '.' + nm)
                 return FuncV('lib', f'{mod}.{nm}')
             return FuncV('lib', f'{mod}.{nm}')
         if ent[0] == 'def':
@@ -386,7 +387,7 @@ class Engine:
                 return mkseq(v.length, z3.Lambda([i], self.toV(v.elem(i))))
             raise Undecided('cannot reify sequence')
         if isinstance(v, DictV):
-            keys = list(v.d.keys())
+            keys = sorted(v.d.keys(), key=str)
             return ufunc('dict:' + ','.join(map(str, keys)), len(keys))(*[self.toV(v.d[k]) for k in keys]) \
                 if keys else z3.Const('dict0', V)
         if isinstance(v, FuncV):
